@@ -415,6 +415,13 @@ func runConsScript(out *common.Out, mu *sync.Mutex, scratch string, tag string, 
 	}
 	done := []string{}
 	line := func() bool {
+		anyUp := false
+		for _, n := range w.nodes {
+			anyUp = anyUp || n.up
+		}
+		if !anyUp {
+			return true // nobody is running: nothing to observe until a restart
+		}
 		l, ok := w.converge(45 * time.Second)
 		if !ok {
 			emit("# inconclusive no-convergence %s %s", s.head(), strings.Join(done, " "))
@@ -520,6 +527,32 @@ func (w *cworld) exec(op string) (string, bool) {
 		})
 		if !ok {
 			return "", false
+		}
+		if f[0] == "nonvoter" {
+			// a direct Raft call without the wrapper's retry loop: an error does not tell whether the entry
+			// was committed (leadership may move meanwhile); report what happened to the configuration
+			res := "err"
+			for i := 0; i < 60 && res == "err"; i++ {
+				if l := w.leader(); l != nil {
+					if info, e := l.cc.VerifRaftInfo(); e == nil {
+						for _, s := range info.Nonvoter {
+							if s == peer.Encode(p.id) {
+								res = "ok"
+							}
+						}
+					}
+				}
+				if res == "err" {
+					if err == nil {
+						time.Sleep(100 * time.Millisecond)
+					} else if i > 30 {
+						break
+					} else {
+						time.Sleep(100 * time.Millisecond)
+					}
+				}
+			}
+			return fmt.Sprintf("%s@%s@%s@%s@%s", f[0], f[1], f[2], res, r), true
 		}
 		return fmt.Sprintf("%s@%s@%s@%s@%s", f[0], f[1], f[2], resTok(err), r), true
 	case "pin", "unpin":
